@@ -81,6 +81,23 @@ def huge_number_schemas():
     return out
 
 
+def unicode_name_schemas():
+    """property, definition and title text with characters that are neither letters, digits nor visible punctuation: combining marks (text in
+    normalisation form D, Thai and Devanagari vowel signs), variation selectors, zero-width space and joiner, soft hyphen, word joiner -
+    none of them may end up inside a Go identifier.  (A byte-order mark inside a name is the recorded finding C01-bom-in-name: Go source may not contain
+    U+FEFF after its first byte, and the name is copied into struct tags and comments.)"""
+    names = ["re\u0301sume\u0301", "plat\u200bdu\u200bjour", "e\u0301tat servi", "ok\ufe0f", "soft\u00adhyphen", "no\u2060break", "zero\u200djoiner",
+             "\u0e0a\u0e37\u0e48\u0e2d", "\u0939\u093f\u0928\u094d\u0926\u0940", "\u0e1a\u0e49\u0e32\u0e19", "a\u0308b", "x\u20e3"]
+    out = []
+    for i in range(0, len(names), 4):
+        grp = names[i:i + 4]
+        props = {n: [{"type": "string", "minLength": 1}, {"type": "integer", "minimum": 0}, {"type": "boolean"}, {"enum": ["a", n]}][j % 4] for j, n in enumerate(grp)}
+        out.append({"type": "object", "title": grp[0], "properties": props, "required": [grp[0]],
+                    "$defs": {grp[1]: {"type": "object", "properties": {grp[2]: {"type": "string"}}}}, "additionalProperties": False})
+        out[-1]["properties"]["ref"] = {"$ref": "#/$defs/" + grp[1]}
+    return out
+
+
 def two_keywords_one_side():
     """integers that state BOTH the inclusive and the numeric exclusive keyword of one side, the exclusive one the tighter and exactly one past a limit
     of a sized Go type, the inclusive one outside that type (minimum 0, maximum 1000, exclusiveMaximum 256): under --min-sized-ints whatever bound
@@ -100,6 +117,7 @@ def run(ctx):
     rng = ctx.rng
     schemas = [("extension-types", s) for s in extension_schemas()] + [("huge-number-bounds", s) for s in huge_number_schemas()]
     schemas += [("two-keywords-one-side", s) for s in two_keywords_one_side()]
+    schemas += [("unicode-names", s) for s in unicode_name_schemas()]
     for fam, lst in (("strings", c06.systematic()[::5]), ("numbers", c05.e2e_systematic(ctx)[::9] + c05.e2e_fractional()[::4]), ("arrays", c07.systematic()[::6]),
                      ("enums", c08.systematic()[::4]), ("defaults", [x[0] for x in c09.systematic()[::6]]), ("special", c12.SPECIAL)):
         schemas += [(fam, s) for s in lst]
